@@ -282,6 +282,30 @@ func c01Hazards(c *fw.Ctx) {
 		}
 	}
 	c.State("method cells called without a fresh lookup")
+	// the variable a method was looked up on is assigned something else before the call happens: inside the argument list,
+	// in a match body that holds the method, in a callee
+	recvs := []struct{ name, init string }{{"a", "a = [3, 1, 2]"}, {"o", "o = {k: 1, j: 2}"}, {"s", "s = \"a,b\""}, {"n", "n = 2.5"}, {"d", "d = $"}, {"e", "e = $.q"}}
+	news := []string{"5", "\"str\"", "null", "[7]", "{z: 1}", "$.nope", "/re/"}
+	for _, r := range recvs {
+		for _, m := range []string{"length", "pluck", "push", "pop", "popfirst", "contains", "sort", "split", "lower", "upper", "floor", "ceil", "round"} {
+			for _, nv := range news {
+				x := r.name
+				progs := []string{
+					"{ " + r.init + "; b = " + x + "; r = " + x + "." + m + "(" + x + " = " + nv + "); print r, " + x + ", b }",
+					"{ " + r.init + "; b = " + x + "; r = " + x + "." + m + "(1, " + x + " = " + nv + "); print r, " + x + ", b }",
+					"{ " + r.init + "; r = match (" + x + "." + m + ") { f => { " + x + " = " + nv + "; f(1) } }; print r, " + x + " }",
+					"{ " + r.init + "; r = match (" + x + "." + m + ") { f => match (" + x + " = " + nv + ") { _ => f() } }; print r, " + x + " }",
+					"function set() { " + x + " = " + nv + "; return 1 } { " + r.init + "; r = " + x + "." + m + "(set()); print r, " + x + " }",
+					"{ " + r.init + "; for (k, f in " + x + ".pluck(\"" + m + "\")) { " + x + " = " + nv + "; r = f(1); print r } }",
+				}
+				for _, prog := range progs {
+					s := c01Spec{Form: "text", Program: prog, Data: `{"q":[1,2],"k":"v"}`, HasData: true, Fuzzing: true}
+					c.Do(func() any { return s }, func() *fw.Violation { return c01RunOne(c, s) })
+				}
+			}
+		}
+	}
+	c.State("receiver variables assigned between method lookup and call")
 }
 
 func c01CLI(c *fw.Ctx, s c01Spec) *fw.Violation {
